@@ -76,6 +76,23 @@ impl World {
 			if self.dead {
 				break;
 			}
+			// T3 (downtime bound): a crashed node is back within two blocks, long before any deadline
+			// of its own could pass while it is down
+			let h = self.chain.tip_height();
+			for n in 0..n_nodes {
+				if self.nodes[n].live.is_none() && !self.nodes[n].gone {
+					match self.nodes[n].down_since {
+						None => self.nodes[n].down_since = Some(h),
+						Some(d) if h >= d + 2 => {
+							self.do_restart(n, 0);
+							self.nodes[n].down_since = None;
+						},
+						_ => {},
+					}
+				} else {
+					self.nodes[n].down_since = None;
+				}
+			}
 			self.do_mine(1);
 			for n in 0..n_nodes {
 				self.do_sync(n, 255);
